@@ -25,6 +25,11 @@ META = {
     design_ref="DESIGN.md 3/C05, 7.2",
     note="Trusted: as C04. The 180 NM / 45 NM disc is replaced by the +-0.95 half-zone box it is contained in (geometric fact about the NL table, assumed).",
     technique=TECH + "; integer cell oracle, IEEE-754 bit-precise"),
+ "C06": dict(
+    text="PARTIAL: the window / gate / attribution logic of decode_position, for EVERY history of 2-4 airborne and surface reports of one or two aircraft within the listed shapes: every timestamp (any order, equal, decreasing), parity, count pair, receiver reference, update callback on/off, and EVERY answer of the four numeric kernels (airborne_position, airborne_position_with_reference, surface_position_with_reference, dist_haversine are contract stubs handing out arbitrary answers and recording their arguments; they are decided on their own under C04/C05). Asserted: a position attached to a report is the one the rules allow - computed from that aircraft's stored opposite-parity report not older than 10 s, or from its own last position younger than 180 s, passing the 50 km gate; surface: own last position with 1 km continuity, else the receiver reference; out-of-order reports change nothing; the receiver reference changes only when the callback says so; latitude and longitude are attached together. One-directional (reports may be left without a position).",
+    design_ref="DESIGN.md 7.6",
+    note="Trusted: Kani/CBMC; the item slicer (decode_position, AircraftState, dist_haversine, haversine copied verbatim from cpr.rs on every run); SmallMap, a two-slot association list bound to the name BTreeMap in the sliced module (std's B-tree: 13-31 GB for two lookups); the kernel stubs; the reference model of the rules (validated natively against the real function with the real kernels on every run). OUTSIDE: the numerical statement 'within 25 m along a 700 kt trajectory' (composition with C04/C05 and a kinematic bound, argued in DESIGN 7.6, not decided), histories longer than 4 reports, more than two aircraft, decode_positions.",
+    technique=TECH + "; kernels as arbitrary-answer contract stubs with recorded arguments, differential against a reference model of the window/gate rules; native confirmation re-runs the counterexample's skeleton with the real kernels over a synthesised payload battery"),
  "C07": dict(
     text="Every accepted payload of every type (all 2^56 contents: every subtype / version / reserved shape) is serialised by the REAL serde machinery (derive output, FlatMapSerializer, TaggedSerializer) into a structure-recording serializer: Ok, no duplicate key per JSON object, no non-finite number, no control character. Records constructed with symbolic header fields show df = downlink format and icao24 fed from the address the frame carries (value capture), and ICAO/IcaoParity serialise as six lowercase hex digits for all 2^24 addresses through the REAL formatter; a timed record keeps the frame as lowercase hex (hex::encode by contract; the real hex::encode on all one-byte inputs). Thorough: string-valued registers, records around every accepted payload, DF20/DF21 selectors with EVERY combination of accepted registers.",
     design_ref="DESIGN.md 3/C07, 7.2",
@@ -66,10 +71,9 @@ META = {
     note="Trusted: Kani/CBMC/CaDiCaL. Oracle side uses fresh quotient variables with the division lemma. Unix times >= 2^34 s outside the bound.",
     technique=TECH),
 }
-REGISTERED = ["C01", "C02", "C03", "C04", "C05", "C07", "C08", "C11", "C13", "C14", "C15", "C17", "C18"]
+REGISTERED = ["C01", "C02", "C03", "C04", "C05", "C06", "C07", "C08", "C11", "C13", "C14", "C15", "C17", "C18"]
 NOTES = "See DESIGN.md. Every check is `bin/check <ID> --tier quick|thorough`; exit 2 means undecided (cap hit, vacuity witness missed, or a counterexample that does not reproduce natively) and is never reported as success."
 NOT_APPLICABLE = [
- dict(property_id="C06", reason="smallest useful instance (two reports through the real decode_position with its BTreeMap state) exhausts 24-42 GB in CBMC's propositional reduction in three reductions; state is private and the logic inline, no smaller real unit exists (DESIGN 3/C06)"),
  dict(property_id="C09", reason="byte scanner editing a heap Vec in place (position/split_off/splice/drain): three bounded formulations of the sliced loop never left symbolic execution in 25-30 min; next_msg itself names tokio sockets and cannot be compiled by Kani (DESIGN 3/C09)"),
  dict(property_id="C10", reason="state local to one async fn (no inductive step), tokio mpsc crashes Kani, HashMap<Vec<u8>,_> exhausts memory; with both modelled a 3-reception history still does not leave symbolic execution in 30 min (DESIGN 3/C10)"),
  dict(property_id="C12", reason="cheapest inductive-step instance of update_snapshot does not finish in 25 min in two reductions (B-tree search with String keys on the aircraft-database parameter fixed by the real signature); Kani refuses to stub BTreeMap::get (DESIGN 3/C12)"),
